@@ -77,6 +77,12 @@ pub(super) fn build_slice(
     })
 }
 
+/// The reference sequence context of a slice, for the verification harness.
+#[cfg(noodles_verif)]
+pub(crate) fn verif_get_reference_sequence_context(records: &[Record]) -> ReferenceSequenceContext {
+    get_reference_sequence_context(records)
+}
+
 fn get_reference_sequence_context(records: &[Record]) -> ReferenceSequenceContext {
     assert!(!records.is_empty());
 
